@@ -415,6 +415,29 @@ Theorem C02_setoffset_next : forall run cfg log, increasing 0 log ->
 Proof. exact delivery_from_start. Qed.
 Print Assumptions C02_setoffset_next.
 
+(* Reader.offset IS the position of the next message: what FetchMessage returned since the last
+   (re)start, followed by the stored records at or after Reader.offset, is the stored sequence from
+   the start position.  (FetchMessage takes its snapshot of the version AFTER the lazy start, so
+   the call that starts the fetcher moves Reader.offset like every other call: invariant
+   [r_call s = Some snap -> snap = r_version s] of Proofs/ReaderLTS.v.) *)
+Theorem C02_offset_is_position : forall run cfg log, increasing 0 log ->
+  forall s s0, reach run cfg log s s0 -> r_version s <> 0 -> (0 <= s0 \/ r_delivered s <> []) ->
+  exists a, (0 <= s0 -> a = s0) /\ mm (from a log) = r_delivered s ++ mm (from (r_offset s) log).
+Proof. exact offset_is_position. Qed.
+Print Assumptions C02_offset_is_position.
+
+(* ... hence SetOffset(o) with o = Reader.offset, which changes nothing, is right to change
+   nothing: whatever is returned afterwards by the same generation is the stored records at or
+   after o, in order — the next message is the stored record with the least offset >= o *)
+Theorem C02_setoffset_same_next : forall run cfg log, increasing 0 log ->
+  forall s s0 o s1 later,
+  reach run cfg log s s0 -> r_version s <> 0 -> r_call s = None -> (0 <= s0 \/ r_delivered s <> []) -> o = r_offset s ->
+  reach run cfg log s1 s0 -> r_version s1 <> 0 -> r_delivered s1 = r_delivered s ++ later ->
+  r_step run cfg s (LSetOffset o) = RState s None
+  /\ exists rest, mm (from o log) = later ++ rest.
+Proof. exact setoffset_same_next. Qed.
+Print Assumptions C02_setoffset_same_next.
+
 (* the contract composes from one response (the heart of the no-gap / no-duplicate argument) *)
 Theorem C02_fetch_extends : forall log lo0 a l c ms f,
   increasing lo0 log -> a <= l -> empty log l c -> empty log c l -> fetch_ok log c ms f ->
@@ -450,10 +473,16 @@ Proof. eexists. split; [vm_compute; reflexivity|]. split; vm_compute; reflexivit
 Definition ex_run := fetch_run no_decomp 100.
 Definition ex_cfg := mkCfg 3 false.
 Definition ex_data (o : Z) := FData 19 (fetch_bytes no_compress ex_layout o) (blen (fetch_bytes no_compress ex_layout o)) false.
+(* LTake outside a call stands for a new FetchMessage call: LBegin first *)
 Fixpoint run_labels (s : rstate) (ls : list label) {struct ls} : option rstate :=
   match ls with
   | [] => Some s
-  | l :: t => match r_step ex_run ex_cfg s l with RState s' _ => run_labels s' t | _ => None end
+  | l :: t =>
+    let s1 := match l, r_call s with
+              | LTake, None => match r_step ex_run ex_cfg s LBegin with RState s' _ => s' | _ => s end
+              | _, _ => s
+              end in
+    match r_step ex_run ex_cfg s1 l with RState s' _ => run_labels s' t | _ => None end
   end.
 Example C02_instance_reader :
   option_map r_delivered
@@ -464,6 +493,19 @@ Example C02_instance_reader :
         LTake; LTake; LTake; LTake; LTake; LTake])
   = Some (map msg_of (firstn 2 (from 12 (layout_records ex_layout)))).
 Proof. vm_compute. reflexivity. Qed.
+
+(* SetOffset(12), ONE read (the call that starts the fetcher returns the record 12), SetOffset(12)
+   again: Reader.offset was 13, so the fetcher restarts at 12 (generation 2) *)
+Example C02_instance_setoffset_after_one_read :
+  option_map (fun s => (r_version s, r_offset s, map g_off (r_delivered s)))
+    (run_labels r_init
+       [LSetOffset 12; LBegin; LGen 1 (GInit 3 19 3 19) 99; LGen 1 (GFetch (ex_data 12)) 99; LTake; LSetOffset 12])
+  = Some (2, 12, [])
+  /\ option_map (fun s => (r_version s, r_offset s, map g_off (r_delivered s)))
+    (run_labels r_init
+       [LSetOffset 12; LBegin; LGen 1 (GInit 3 19 3 19) 99; LGen 1 (GFetch (ex_data 12)) 99; LTake])
+  = Some (1, 13, [12]).
+Proof. split; vm_compute; reflexivity. Qed.
 
 (* ---- the synchronisation skeleton the model assumes (which Go critical section / channel operation each step of Model/Lifecycle.v, Model/GroupReader.v, Model/ReaderModel.v stands for, reader_assumptions: Model/SkeletonAssumptions.v)
    holds of /repo's CURRENT source: call/access facts regenerated by harness/cmd/vskel on every run. *)
